@@ -5,7 +5,7 @@
 import os, sys
 sys.path.insert(0, os.path.join(os.environ.get("AIOFTP_REPO", "/repo"), "src"))
 OBLIGATION = 'aioftp.common:ThrottleStreamIO.write::ThrottleStreamIO.write/raises:TimeoutError:throttle-sleep-is-outside-the-io-timeout'
-MODEL = {'clock!15': '-1/1', 'w0_start!11': '0/1', 'w0_reset_rate!5': '1/1', 'r0_reset_rate!0': '1/1', 'clock!16': '0/1', 'w0_t0!7': '0/1', 'w0_rho!9': '0/1', 'write_timeout!14': '1/1', 'w0_limit!10': '1/1', 'w0_sum!6': 0, 'w0_B!8': 0}
+MODEL = {'w0_start!11': '0/1', 'write_timeout!14': '1/1', 'w0_t0!7': '0/1', 'w0_rho!9': '0/1', 'w0_reset_rate!5': '1/1', 'w0_limit!10': '1/1', 'clock!16': '0/1', 'w0_sum!6': 0, 'r0_reset_rate!0': '1/1', 'clock!15': '-1/1', 'w0_B!8': 0}
 SOLVER_NOTE = ''
 
 print("obligation", OBLIGATION, "failed; no concrete failing input could be constructed automatically")
